@@ -21,9 +21,23 @@ func ZZH16aNesting() {
 	sym.Observe("script", s.Types())
 	var log []ctxLog
 	pb := parser.NewBuilder(s.LexerBuilder())
+	// plugin behaviours the queries must be robust against (parameters):
+	// plugctx: a plugin tracks block statements with a context type of its own (PushContext/PopContext around next());
+	// nilstmt: a plugin strips expression statements from the tree by returning nil after parsing them
+	plugctx, nilstmt := sym.Param("plugctx", 0) == 1, sym.Param("nilstmt", 0) == 1
 	pb.UseStatementInterceptor(func(p *parser.Parser, next func() ast.Statement) ast.Statement {
 		log = append(log, ctxLog{p.CurrentToken.End.Column, p.IsInFunction(), p.CurrentContext(), 0})
-		return next()
+		if plugctx && p.CurrentToken.Type == token.LBRACE {
+			p.PushContext(parser.ContextType(7))
+			st := next()
+			p.PopContext()
+			return st
+		}
+		st := next()
+		if _, isExpr := st.(*ast.ExpressionStatement); isExpr && nilstmt {
+			return nil
+		}
+		return st
 	})
 	pb.UseExpressionInterceptor(func(p *parser.Parser, next func() ast.Expression) ast.Expression {
 		log = append(log, ctxLog{p.CurrentToken.End.Column, p.IsInFunction(), p.CurrentContext(), 1})
